@@ -249,9 +249,10 @@ func coqLog(l jLog) string {
 // ---------------------------------------------------------------------------------------
 // oracle pieces, written from the property text and docs/event.md
 
-// refValue resolves a LogValueRef as docs/event.md describes it. ok is false when the
-// reference is not well formed for this log (missing topic, word or slice not inside the
-// data, a pointer or length word that does not fit 64 bits): then only totality is judged.
+// refValue resolves a LogValueRef as docs/event.md and the doc comment of GetValue describe it.
+// ok is false when the reference is not well formed for this log (missing topic, a dynamic
+// reference whose words or slice are not inside the data, a pointer or length word that does not
+// fit 64 bits): then only totality is judged. A static word is always determined (zero padding).
 func refValue(p jPred, topics [][]byte, data []byte) (v []byte, ok bool) {
 	if p.Off < 4 {
 		if p.Off < uint64(len(topics)) {
@@ -269,12 +270,18 @@ func refValue(p jPred, topics [][]byte, data []byte) (v []byte, ok bool) {
 		return data[s : s+32], true
 	}
 	start := new(big.Int).Mul(new(big.Int).SetUint64(p.Off-4), big.NewInt(32))
+	if !p.Dyn {
+		// GetValue's contract: a static data word that exceeds the log's data is zero-padded on
+		// the right to one word (a word entirely beyond the data is the zero word)
+		w := make([]byte, 32)
+		if start.Cmp(n) < 0 {
+			copy(w, data[start.Uint64():])
+		}
+		return w, true
+	}
 	w, ok := word(start)
 	if !ok {
 		return nil, false
-	}
-	if !p.Dyn {
-		return w, true
 	}
 	ioib := new(big.Int).SetBytes(w)
 	if !ioib.IsUint64() {
@@ -1375,6 +1382,29 @@ func forced(run *vh.Run) {
 		runDef(run, &jDef{Contract: addrA, Preds: []jPred{uintP(off, 2, big.NewInt(0)), uintP(3, 4, big.NewInt(0))}}, short)
 		runDef(run, &jDef{Contract: addrA, Preds: []jPred{dynEq(off, hello)}}, short)
 		runDef(run, &jDef{Contract: addrA, Preds: []jPred{uintP(off, 1, two256), dynEq(off-1, nil), topicEq(0, unhx(h0))}}, short)
+	}
+	// wrap family: static word indices k*2^27+j are where a start byte computed in 32 bits
+	// ((index*32) mod 2^32) lands back inside the data; k*2^26 and k*2^28 are controls, 2^59 is
+	// the (invalid) 64-bit wrap tested above. The documented value of all of them is the zero word.
+	seven := cat(wordU(7), wordU(9))
+	wrapLogs := []jLog{mk(four, seven), mk(nil, seven[:40]), mk(four, cat(wordU(7), wordU(9), wordU(11)))}
+	var wrapOffs []uint64
+	for _, k := range []uint64{1, 2, 3, 16, 31} {
+		for j := uint64(0); j < 3; j++ {
+			wrapOffs = append(wrapOffs, 4+k<<27+j)
+		}
+	}
+	for _, k := range []uint64{1, 3, 63} {
+		wrapOffs = append(wrapOffs, 4+k<<26, 4+k<<26+1)
+	}
+	for _, k := range []uint64{1, 3, 15} {
+		wrapOffs = append(wrapOffs, 4+k<<28, 4+k<<28+1)
+	}
+	for _, off := range wrapOffs {
+		for _, p := range []jPred{uintP(off, 2, big.NewInt(0)), uintP(off, 2, big.NewInt(7)), uintP(off, 2, big.NewInt(9)), uintP(off, 0, big.NewInt(1)),
+			uintP(off, 1, big.NewInt(0)), {Off: off, Op: 5, Ints: []*string{}, Bytes: []string{hx(wordU(7))}}, {Off: off, Op: 5, Ints: []*string{}, Bytes: []string{hx(wordU(0))}}} {
+			runDef(run, &jDef{Contract: addrA, Preds: []jPred{p}}, wrapLogs)
+		}
 	}
 	// uint comparisons on dynamic values and static words, all operators
 	for op := uint64(0); op < 5; op++ {
